@@ -8,6 +8,7 @@ import (
 	"os"
 	"os/exec"
 	"path/filepath"
+	"reflect"
 	"sort"
 	"strings"
 	"sync"
@@ -17,6 +18,7 @@ import (
 
 	"google.golang.org/protobuf/encoding/protojson"
 	"google.golang.org/protobuf/encoding/prototext"
+	"google.golang.org/protobuf/internal/impl"
 	"google.golang.org/protobuf/proto"
 	"google.golang.org/protobuf/reflect/protodesc"
 	"google.golang.org/protobuf/reflect/protoreflect"
@@ -31,7 +33,7 @@ import (
 // One first-use operation. Targets are indices into the sorted name lists of the registries, so a
 // plan is plain data and both processes resolve it identically.
 type op struct {
-	Kind string // walk | codec | jsontext | enum | ext | find | register | rangefiles
+	Kind string // walk | codec | jsontext | enum | ext | find | register | rangefiles | aberrant
 	Idx  int
 }
 
@@ -122,6 +124,57 @@ func walkMessage(w *bytes.Buffer, md protoreflect.MessageDescriptor, depth int) 
 
 var regCounter atomic.Int64
 
+// aberrantType builds (deterministically; reflect.StructOf caches) the k-th struct-tag-only message
+// type: many tagged fields, so that deriving its descriptor on first use takes a while, plus a
+// reference to itself (the derivation publishes the half-built descriptor for such cycles).
+func aberrantType(k int) reflect.Type {
+	n := 120 + 20*k
+	fs := make([]reflect.StructField, 0, n+1)
+	for i := 1; i <= n; i++ {
+		var t reflect.Type
+		var tag string
+		switch i % 4 {
+		case 0:
+			t, tag = reflect.TypeOf((*int32)(nil)), fmt.Sprintf(`protobuf:"varint,%d,opt,name=f%d"`, i, i)
+		case 1:
+			t, tag = reflect.TypeOf((*string)(nil)), fmt.Sprintf(`protobuf:"bytes,%d,opt,name=f%d"`, i, i)
+		case 2:
+			t, tag = reflect.TypeOf([]uint64(nil)), fmt.Sprintf(`protobuf:"varint,%d,rep,packed,name=f%d"`, i, i)
+		default:
+			t, tag = reflect.TypeOf((*float64)(nil)), fmt.Sprintf(`protobuf:"fixed64,%d,opt,name=f%d,def=1.5"`, i, i)
+		}
+		fs = append(fs, reflect.StructField{Name: fmt.Sprintf("F%d", i), Type: t, Tag: reflect.StructTag(tag)})
+	}
+	return reflect.StructOf(fs)
+}
+
+// aberrantFirstUse derives the descriptor of the k-th struct-tag-only type (first use in this
+// process when no other goroutine got there before), walks it, and marshals a populated instance.
+func aberrantFirstUse(k int) string {
+	rt := aberrantType(k)
+	v := reflect.New(rt)
+	n := rt.NumField()
+	last := int32(7)
+	v.Elem().Field(n - n%4 - 1).Set(reflect.ValueOf(&last)) // an int32 field near the end (index i-1 with i%4==0)
+	// what the legacy wrapper does for a message type it has never seen (types built by
+	// reflect.StructOf have no methods, so the exported wrapper functions refuse them)
+	md := impl.LegacyLoadMessageDesc(v.Type())
+	mi := &impl.MessageInfo{Desc: md, GoReflectType: v.Type()}
+	m := mi.MessageOf(v.Interface()).Interface()
+	var w bytes.Buffer
+	// (the derived full name of an unnamed struct type contains a pointer value: not compared)
+	fmt.Fprintf(&w, "A fields=%d\n", md.Fields().Len())
+	for i := 0; i < md.Fields().Len(); i++ {
+		fd := md.Fields().Get(i)
+		fmt.Fprintf(&w, "%s#%d k%v c%v j%s p%v def=%v|", fd.Name(), fd.Number(), fd.Kind(), fd.Cardinality(), fd.JSONName(), fd.IsPacked(), fd.Default())
+	}
+	f0 := md.Fields().Get(md.Fields().Len() - 1)
+	fmt.Fprintf(&w, "L %v %v\n", md.Fields().ByName(f0.Name()) == f0, md.Fields().ByNumber(f0.Number()) == f0)
+	b, err := proto.Marshal(m)
+	sz := proto.Size(m)
+	return digest(w.String(), b, err, sz)
+}
+
 func execOp(o op, msgs, enums []string, exts []protoreflect.ExtensionType, files []string) (res string) {
 	defer func() {
 		if r := recover(); r != nil {
@@ -129,6 +182,8 @@ func execOp(o op, msgs, enums []string, exts []protoreflect.ExtensionType, files
 		}
 	}()
 	switch o.Kind {
+	case "aberrant":
+		return aberrantFirstUse(o.Idx % 6)
 	case "walk":
 		mt, err := protoregistry.GlobalTypes.FindMessageByName(protoreflect.FullName(msgs[o.Idx%len(msgs)]))
 		if err != nil {
@@ -433,7 +488,7 @@ func checkPlan(p plan) error {
 }
 
 func TestFirstUse(t *testing.T) {
-	kinds := []string{"walk", "walk", "walk", "codec", "codec", "jsontext", "enum", "ext", "find", "find", "register", "rangefiles"}
+	kinds := []string{"walk", "walk", "walk", "codec", "codec", "jsontext", "enum", "ext", "find", "find", "register", "rangefiles", "aberrant"}
 	pbt.Run(t, pbt.Prop[plan]{
 		Name: "first-use",
 		Rule: "plan: 20..120 first-use operations over all linked message/enum/extension types and files, distributed over 2..32 goroutines with every operation given to 1..4 goroutines, random pre-delays; executed in a fresh concurrent process and a fresh sequential process. non-trivial = at least one operation is executed by >= 2 goroutines (always true by construction; counted)",
